@@ -67,6 +67,7 @@ def run(ctx):
     for c in cfgs:
         c["depth"] = 4 if ctx.tier == "quick" else 5
     c14.run_rot(ctx, exe, cfgs, "c15", "rot(c15)")
+    ctx.distinct.update(range(int(ctx.stats.get("states", 0))))
     ctx.assumptions.append("configured grid: daily = every HH:MM:00 of the sink's zone (libc mktime/timegm); hourly/minutely x N = first top of the hour/minute strictly after the sink's start, then every N units")
     ctx.assumptions.append("a due rotation point with an empty file (or with rotation stopped by the backup limit) is consumed without rotating")
 
